@@ -65,6 +65,12 @@ func TestC10FindMissing(t *testing.T) {
 				proxyMax = int64(rapid.IntRange(50, 150).Draw(t, "proxyMax"))
 				o.ProxyMax = proxyMax
 			}
+			// a backend that cannot tell sizes (HTTP / S3 / Azure with compressed
+			// objects) answers existence checks with "present, size unknown"
+			px.ContainsSizeUnknown = rapid.IntRange(0, 2).Draw(t, "backendSizeUnknown") == 0
+			if px.ContainsSizeUnknown {
+				E.Label("backend=size-unknown")
+			}
 			if rapid.Bool().Draw(t, "delays") {
 				maxDelay := rapid.SampledFrom([]int{200, 1000, 3000, 20000}).Draw(t, "maxDelayMicros")
 				px.ContDelay = func(hash string) time.Duration {
@@ -82,9 +88,18 @@ func TestC10FindMissing(t *testing.T) {
 		// pool
 		npool := rapid.IntRange(1, 14).Draw(t, "npool")
 		var pool []entry
-		classes := []string{"local", "local", "absent", "absent", "sizemismatch", "empty"}
+		classes := []string{"local", "local", "absent", "absent", "empty"}
+		if px == nil || !px.ContainsSizeUnknown {
+			// (uploads are written through: behind a backend that does not know sizes
+			// a locally mis-sized digest is "present" on the backend's word)
+			classes = append(classes, "sizemismatch")
+		}
 		if withBackend {
-			classes = append(classes, "backend", "backend", "local+backend", "backend-oversize", "backend-sizemismatch")
+			classes = append(classes, "backend", "backend", "local+backend", "backend-oversize")
+			if !px.ContainsSizeUnknown {
+				// (a backend that does not know sizes cannot notice a stated size that is wrong)
+				classes = append(classes, "backend-sizemismatch")
+			}
 		}
 		for i := 0; i < npool; i++ {
 			class := rapid.SampledFrom(classes).Draw(t, "class")
